@@ -36,6 +36,7 @@ __all__ = ['DataReader']
 
 fullline_pattern = re.compile(br'.*\n')
 eod_pattern = re.compile(br'^\.\s*?\n$')
+eod_prefix_pattern = re.compile(br'^\.\s*$')
 endl_pattern = re.compile(br'\r?\n$')
 
 
@@ -57,8 +58,13 @@ class DataReader(object):
         self.EOD = None
         self.lines = [b'']
         self.i = 0
+        self.too_big = False
+        self._forgotten = 0
 
     def _append_line(self, line):
+        # Only bytes of the message itself count against the size limit.
+        if self.EOD is None:
+            self.size += len(line)
         if len(self.lines) <= self.i:
             self.lines.append(line)
         else:
@@ -80,11 +86,38 @@ class DataReader(object):
             # Check for the End-Of-Data marker.
             if eod_pattern.match(line):
                 self.EOD = i
+                self.size -= len(line)
 
             # Remove an initial period on non-EOD lines as per RFC 821 4.5.2.
             elif line[0:1] == b'.':  # line[0] is an integer
                 line = line[1:]
                 self.lines[i] = line
+                self.size -= 1
+
+    def _check_size(self):
+        size = self.size
+        if self.EOD is None and len(self.lines) > self.i:
+            # An unfinished line may yet be the End-Of-Data marker, or have
+            # its initial period removed.
+            partial = self.lines[self.i]
+            if eod_prefix_pattern.match(partial):
+                size -= len(partial)
+            elif partial[0:1] == b'.':
+                size -= 1
+        if self.max_size and size > self.max_size:
+            self.too_big = True
+        if self.too_big:
+            # Forget the data, keeping only what is needed to find the
+            # End-Of-Data marker, so the rest of the message is consumed
+            # rather than parsed as commands.
+            last = self.i if self.EOD is None else self.EOD
+            for j in range(self._forgotten, min(last, len(self.lines))):
+                self.lines[j] = b''
+            self._forgotten = last
+            if self.EOD is None and len(self.lines) > self.i:
+                partial = self.lines[self.i]
+                if partial and not eod_prefix_pattern.match(partial):
+                    self.lines[self.i] = b'x'
 
     def add_lines(self, piece):
         last = 0
@@ -103,12 +136,10 @@ class DataReader(object):
         if piece == b'':
             raise ConnectionLost()
 
-        self.size += len(piece)
-        if self.max_size and self.size > self.max_size:
-            self.EOD = self.i
-            raise MessageTooBig()
-
         self.add_lines(piece)
+        self._check_size()
+        if self.too_big and self.EOD is None:
+            raise MessageTooBig()
         return self.EOD is None
 
     def return_all(self):
@@ -129,9 +160,16 @@ class DataReader(object):
 
         """
         self.from_recv_buffer()
-        while self.recv_piece():
-            pass
-        return self.return_all()
+        self._check_size()
+        while self.EOD is None:
+            try:
+                self.recv_piece()
+            except MessageTooBig:
+                pass
+        data = self.return_all()
+        if self.too_big:
+            raise MessageTooBig()
+        return data
 
 
 # vim:et:fdm=marker:sts=4:sw=4:ts=4
